@@ -443,13 +443,18 @@ def gen_rt(ctx, maxmsg):
     r0 = C.rng("c19-rt-grid")
     grid_setups = ["L1:8:1:9:1", "L2:12:0:12:0", "L3:15:0:15:0"] + (setups_o[:6] if ctx.thorough else setups_o[:2])
     for n in sizes:
-        for kind in kinds:
-            if n > 100000 and kind in ("high", "text") and not ctx.thorough:
-                continue
+        big = n > 4096
+        for kind in (("zero", "rand", "text") if big else kinds):
             p = payload_of(kind, n, r0)
-            for s in grid_setups:
-                for cuts in (["-", "0,0,5"] if n < 6 else cutsets if (ctx.thorough or n <= 4096) else cutsets[:4] + ["10,1000"]):
-                    for mode in (modes if n <= 4096 else ("comp", "ws")):
+            for s in (grid_setups[:3] if big else grid_setups):
+                if n < 6:
+                    cs = ["-", "0,0,5"]
+                elif big:
+                    cs = ["-", "10,1000", "0,0,5", "1,2,4,8,16,32,64,128,256,512,1024"]
+                else:
+                    cs = cutsets
+                for cuts in cs:
+                    for mode in (("comp", "ws") if big else modes):
                         if not ctx.thorough and r0.randrange(3) and cuts not in ("-", "10,1000", "0,0,5"):
                             continue
                         add(s, mode, cuts, [p])
